@@ -67,9 +67,15 @@ N_RESULTS = 13
 class Stub:
     """Stands for the server / client the namespace is registered with: records every method call."""
 
-    def __init__(self, real_cls, ret=0):
+    # what a DATA attribute of the peer (`connected`, `namespaces`, `manager`, ... — anything that is not a method of
+    # the real class) reads as: the helpers must forward whatever state the peer is in (property: "has exactly the
+    # effect of the same-named method"); state 0 is the historical behaviour (a recording callable, truthy)
+    STATES = (None, False, True, None, 0, {}, {'/': 'sid'})
+
+    def __init__(self, real_cls, ret=0, state=0):
         self._real = real_cls
         self._ret = ret
+        self._state = state
         self.calls = []
         self.results = []
 
@@ -77,6 +83,8 @@ class Stub:
         if name.startswith('__'):
             raise AttributeError(name)
         real = getattr(self._real, name, None)
+        if real is None and self._state:
+            return self.STATES[self._state]
         result = make_result(self._ret, name)
 
         def rec(*args, **kwargs):
@@ -115,7 +123,7 @@ def execute(case, loop):
     cls = getattr(s, cname)
     peer_cls = getattr(s, peer_cls_name)
     obj = cls(case['reg'])
-    stub = Stub(peer_cls, case.get('ret', 0))
+    stub = Stub(peer_cls, case.get('ret', 0), case.get('peer_state', 0))
     getattr(obj, setter)(stub)
     pos, kw, given = build_call(case)
     obs = {'given': given, 'obj': obj, 'stub': stub, 'exc': None, 'result_ok': None, 'bound': None,
@@ -323,6 +331,7 @@ def model_call(ans):
 def describe(case):
     return {'cls': case['cls'], 'helper': case['helper'], 'reg': case['reg'], 'npos': case['npos'],
             'given': case['given'], 'order': case.get('order', 'helper'), 'ret': case.get('ret', 0),
+            'peer_state': case.get('peer_state', 0),
             'then': case.get('then'), 'underlying_method_returns': repr(make_result(case.get('ret', 0), case['helper'])),
             'call': '%s(%r).%s(%s)' % (case['cls'], case['reg'], case['helper'], ', '.join(
                 [repr(make_value(d)) for _p, d in case['given'][:case['npos']]] +
@@ -362,6 +371,7 @@ def cases_for(cname, helper, rng, counter):
                     yield {'cls': cname, 'helper': helper,
                            'reg': REG_NAMESPACES[counter[0] % len(REG_NAMESPACES)],
                            'ret': (counter[0] // 3) % N_RESULTS,
+                           'peer_state': (counter[0] // 5) % len(Stub.STATES),
                            'given': given, 'npos': npos}
 
 
